@@ -1875,6 +1875,12 @@ namespace awkward {
                 + std::string("): __array__ = \"categorical\" only allowed for "
                               "IndexedArray and IndexedOptionArray"));
       }
+      // the categories can only be read (to test that they are unique) if they
+      // are a valid layout themselves
+      std::string sub = content.get()->validityerror(path + std::string(".content"));
+      if (!sub.empty()) {
+        return sub;
+      }
       if (!content.get()->is_unique()) {
         return (std::string("at ") + path + std::string(" (") + classname()
             + std::string("): __array__ = \"categorical\" requires contents "
